@@ -142,6 +142,13 @@ def run(res, rng, tier, model_ok, replay=None):
                 mode = rng.choice(["st", "rd", "hc"])
                 line, exp, _ = gen.vcd_case(rng, mode, sigs, steps, imp, strip_end=(rng.random() < 0.3))
                 cases.append({"line": line, "expect": exp, "key": nontrivial_key(line, steps, imp), "klass": "vcd-small-" + mode, "pred": monitor})
+        # GHW: the time table of generated signal sections (cycle sections with deltas of 0, small steps, backwards section
+        # times and gaps beyond 2^31 and 2^32 fs); the values are property C11, here the table must be strictly increasing
+        # and equal the accepted section times
+        from . import c11
+        for _ in range(120 if tier == "quick" else 2000):
+            line, exp, nt, data = c11.build(rng)
+            cases.append({"line": line, "expect": exp, "key": ("ghw", hash(line)) if nt else None, "klass": "ghw-sections", "pred": monitor})
         # files that end directly after a time stamp token (no trailing blank): the time step still counts
         for mode in ("st", "rd", "hc", "rb"):
             for k in range(3):
